@@ -1179,6 +1179,10 @@ func (m *Nitro) LoadFromDisk(dir string, concurr int, callb ItemCallback) (*Snap
 			if err = json.Unmarshal(bs, &files); err != nil {
 				return nil, err
 			}
+		} else if _, serr := os.Stat(deltadir); !os.IsNotExist(serr) {
+			// A backup taken with delta interleaving always has a delta
+			// manifest. Only a backup without delta directory has none.
+			return nil, err
 		}
 
 		readers := make([]FileReader, len(files))
